@@ -19,7 +19,9 @@ EXPLANATION = (
     "block on (result, summed) indices, right amplitude vector on the summed indices, both "
     "square-root factors, delta evaluation, block selection by bra space and order). R03b: "
     "ADC(n) truncation tables max_ptorder_spaces/block_order evaluated for n <= 6 and the five "
-    "variants against order(mu,nu) = n - (mu-1) - (nu-1).")
+    "variants against order(mu,nu) = n - (mu-1) - (nu-1). R04a/R04b/R04c/R02c: index chaining of "
+    "S^(-1/2), lower-space generator, projector structure and Taylor coefficients of the "
+    "intermediate states and norm factors every block is built from.")
 ASSUMPTIONS = [
     "equality with <I|H-E0|J> over explicitly built states is not decided",
     "R03b is evaluated for adc orders 0..6 only (bounded, not exhaustive)",
@@ -162,3 +164,23 @@ def run(ctx):
         r03b(ctx)
     if ctx.want("R04c"):
         c04.r04c(ctx)
+    # S^(-1/2) and the norm factor enter every matrix block
+    if ctx.want("R04a"):
+        c04.r04a(ctx)
+    if ctx.want("R04b"):
+        c04.r04b(ctx)
+    if ctx.want("R02c"):
+        from . import c02
+        c02.r02c(ctx)
+        c02.taylor_builder(ctx, "R02c", c04.IS + "expand_S_taylor", "-0.5")
+    # ground-state layer (wavefunctions, norm factors) every expression is built from
+    from . import c02
+    if ctx.want("D1"):
+        deriv.d1(ctx, "D1", "groundstate", 6)
+    if ctx.want("D2"):
+        deriv.d2(ctx, "D2", "groundstate", 6)
+    if ctx.want("D3"):
+        c02.d3_psi(ctx)
+        c02.d3_operator(ctx)
+    if ctx.want("R02a"):
+        c02.r02a(ctx)
